@@ -24,3 +24,12 @@ package db
 //@   ensures err == nil ==> partOK(r) && r.key == p.key
 //@   ensures err == nil ==> forall v string :: v != "" ==> (sat(r, v) <==> (sat(p, v) && sat(p2, v)))
 //@   ensures err != nil ==> err == io.EOF && forall v string :: v != "" ==> !(sat(p, v) && sat(p2, v))
+
+// A query word is split at its separator: the key before it, the value after
+// it, and the operator the separator stands for (':' equality, '<', '>');
+// any other separator, or none, is an error.
+//@ func parseWord(word string) (p part, err error)
+//@   props C19
+//@   opt allocates
+//@   ensures err == nil ==> exists i int witness sepIndex :: 0 <= i < len(word) && p.key == word[:i] && p.value == word[i+1:] && p.value2 == "" &&
+//@             ((word[i] == ':' && p.operator == 0) || (word[i] == '<' && p.operator == 2) || (word[i] == '>' && p.operator == 3))
